@@ -61,6 +61,7 @@ def verify_property(prop: str, tier: str, jobs: int, only=None, verbose=False):
                 if ref in roots:
                     raise
     budget = 120 if tier == "quick" else 900
+    os.environ["PYVC_TIER"] = tier  # read by the recorder (cvc5 cross-check) in the forked workers
     todo = list(roots)
     seen = set()
     results = []
